@@ -14,9 +14,20 @@ def make_spec(g, allow):
     spec = dict(cfgs=h.cfgs, execs=h.execs, flags=set(h.flags), recmode=r.choice(['', '', 'true']),
                 modes=r.sample(REPLAY_MODES, 3), pre=[], nest=gen_nest(r, h.execs, 0.3), edit=suites.edit_choice(r, h.execs), count=1 if any(a in allow for a in ('long', 'big', 'many')) else r.choice([1, 1, 1, 2, 3, 3, 4]))
     if r.random() < 0.4:
-        h0 = gen_history(g, ('nosafn',), max_tests=2, max_calls=3, ncfg=len(h.cfgs))
-        spec['flags'] |= h0.flags
+        # the earlier history is recorded once and never replayed, so ITS values may end lines with a
+        # carriage return (raw HTTP dumps, CSV): such entries sit EARLIER in the files than the
+        # entries that must replay
+        pre_cr = r.random() < 0.35
+        h0 = gen_history(g, ('nosafn', 'cr', 'crlf') if pre_cr else ('nosafn',), max_tests=2, max_calls=3, ncfg=len(h.cfgs))
+        spec['flags'] |= (h0.flags - {'cr'})
         spec['pre'] = [(b'TestPre' + n[4:], c) for n, c in h0.execs]
+        if pre_cr:
+            spec['flags'].add('pre-cr')
+    # the files as a checkout with core.autocrlf leaves them: CR LF (or mixed) line endings.  The
+    # scanner drops the CR, so every recorded entry must still replay, and nothing is rewritten
+    spec['crlf'] = r.choice(suites.CRLF_MODES) if r.random() < 0.15 and 'cr' not in spec['flags'] and 'pre-cr' not in spec['flags'] and 'long' not in allow and 'big' not in allow else None
+    if spec['crlf']:
+        spec['flags'].add('crlf-file')
     return spec
 
 
@@ -45,6 +56,9 @@ def render(tag, spec):
     texec = base + len(spec['execs'])
     if spec.get('edit') and not any(c.kind in ('sasnap', 'sajson') for _, calls in spec['pre'] for _, c in calls):
         w.add('fsedit ' + spec['edit'])
+    if spec.get('crlf'):
+        for op in suites.crlf_ops(spec['cfgs'], spec['crlf']):
+            w.add(op)
     ref = w.add('fsdump')
     for ci, upd in spec['modes']:
         w.add('reset')
@@ -101,6 +115,28 @@ def big_file_world(g):
     return render('c01-bigfile', spec)
 
 
+def fixed_worlds():
+    """deterministic boundary cases: adjacent terminator lines (each must be escaped on its own), a
+    value with CR LF lines recorded EARLIER in the file than the entries that replay, files
+    converted to CR LF / mixed line endings after the recording"""
+    worlds = []
+    http = b'HTTP/1.1 200 OK\r\nContent-Type: text/plain\r\n\r\nhello'
+    adj = [Call('snap', [b'---', b'---']), Call('snap', b'---\n---\n---'), Call('snap', b'a\n---\n---\nb'), Call('snap', b'# Title\n\n---\n---\n\ntext\n---'),
+           Call('yaml', b'a: 1\n---\n---\nb: 2\n', 's'), Call('yaml', b'---\n---\n', 's'), Call('yaml', b'---\n---\na: 1\n', 'b'),
+           Call('snap', b'/-/-/-/\n/-/-/-/'), Call('snap', [b'---', b'/-/-/-/', b'---'])]
+    mixed = [Call('snap', b'alpha one'), Call('json', b'{"b": [1, 2, {"c": null}], "a": "x"}', 's'), Call('snap', b'two\nlines\n'),
+             Call('yaml', b'k: v\nlist:\n  - 1\n  - two\n', 's'), Call('snap', b''), Call('snap', b'---\nafter')]
+    modes = [(True, ''), (False, 'true'), (False, '')]
+    worlds.append(render('c01-adjacent-terminators', dict(cfgs=[cfg_line(1, 'snaps')], execs=[(b'TestAdj', [(1, c) for c in adj])], flags=set(), recmode='',
+                                                           modes=modes, pre=[], nest={})))
+    for i, mode in enumerate([None, 'all', 'odd', 'even']):
+        # TestPreAlpha's raw HTTP dump sits before TestBeta's / TestGamma's entries
+        worlds.append(render('c01-cr-earlier-%d' % i, dict(cfgs=[cfg_line(1, 'snaps')], execs=[(b'TestBeta', [(1, c) for c in mixed]), (b'TestGamma', [(1, Call('snap', b'gamma'))])],
+                                                          flags=set(), recmode='', modes=modes, pre=[(b'TestPreAlpha', [(1, Call('snap', http)), (1, Call('snap', b'x\r\ny'))])] if mode is None else [],
+                                                          nest={}, crlf=mode)))
+    return worlds
+
+
 def known(w, p):
     if p['kind'] != 'expect':
         return None
@@ -128,8 +164,11 @@ def run(ctx):
             allow = ('many',)
         elif k < 0.36:
             allow = ('long',) if g.r.random() < 0.5 else ('big',)       # a 70 KB / 300 KB line: beyond bufio.MaxScanTokenSize
+        elif k < 0.42:
+            allow = ('mid',)       # single lines of 4095 ... 12288 bytes: around the default buffer sizes of bufio
         worlds.append(build_world(g, 'c01-%d' % i, allow))
     worlds.append(big_file_world(g))
+    worlds += fixed_worlds()
     run_suite(ctx, 'match.replay', worlds, known=known)
     if not ctx.facts.get('bools', {}).get('scannerUnbounded', True):
         # the proof obligation source_scanner_unbounded is broken: search for a line the scanner can
